@@ -152,6 +152,20 @@ def _stream_worker(a):
                 k = next((i for i in range(min(len(out), len(ref_out))) if out[i] != ref_out[i]), min(len(out), len(ref_out)))
                 diff = "stdout differs at line %d with reads of at most %d bytes: %r vs %r" % (k, mx, out[k:k + 2], ref_out[k:k + 2])
             results.append(("chunk<=%d" % mx, data, r, diff))
+    elif kind == "timer":
+        # real request timers (1 s): the stream stops in the middle for 1.6 s with stdin open, so the timers of every request that is
+        # pending - complete or not, answered NO / OK / not at all, with or without its D - expire; then the rest follows
+        tcfg = proto.Config(cfg.services, timeout=1, rules=cfg.rules, use_class=cfg.use_class)
+        conf = tcfg.text(b["moddir"])
+        for rep in range(a["reps"]):
+            keep = [l for l in lines if not (rng.random() < 0.5 and l.split(" ")[1:2] in (["D"], ["T"], ["H"]))]
+            bl = mutate(rng, keep, ids) if rng.random() < 0.4 else [l.encode("latin-1") for l in keep]
+            data = join(rng, bl)
+            cut = data.find(b"\n", int(len(data) * rng.choice([0.5, 0.7, 0.9]))) + 1 or len(data)
+            out, r = daemon.run_batch(b, conf, data, leaks=True, timeout=WD, pause_at=cut, pause_s=1.6)
+            results.append(("timer", data, r, None))
+            if r.hang:
+                break
     elif kind == "junk":
         good = [l.encode("latin-1") for l in lines]
         ref_out, ref_r = daemon.run_batch(b, conf, b"".join(l + b"\n" for l in good), leaks=True, timeout=WD)
@@ -231,6 +245,7 @@ def run(chk, tier, scale=1.0):
     add("prefix", int((8 if q else 10) * scale) or 1, 60 if q else 10 ** 9)
     add("chunk", int((40 if q else 500) * scale), 6 if q else 20)
     add("junk", int((50 if q else 1000) * scale), 4 if q else 5)
+    add("timer", int((16 if q else 160) * scale) or 1, 2)
     res = vcommon.pmap(_stream_worker, jobs, chunksize=1)
     seen_crash = {}
     sampled = set()
@@ -273,7 +288,7 @@ def run(chk, tier, scale=1.0):
                 "command without its argument), 0..40 arguments, empty / whitespace / colon-only lines, CR LF mixtures, NUL and high bytes, 600 B..70 KB lines, ids at and "
                 "beyond the limits of int and long, every command with id -1 and with live ids, replies with every malformed tag, random bytes; (2) peer death: %s prefixes of "
                 "streams; (3) the same stream under read() segmentations of at most 1,2,3,7,16,100,1000 bytes chosen by the guarded chunk hook must give identical stdout; "
-                "(4) a good stream with junk lines (unknown ids, unknown command words, malformed replies) mixed in must give identical stdout; oracle for all: exit 0 at end "
+                "(3b) streams interrupted for 1.6 s under a 1 s request timeout so that the real timers of pending, refused and abandoned requests expire; (4) a good stream with junk lines (unknown ids, unknown command words, malformed replies) mixed in must give identical stdout; oracle for all: exit 0 at end "
                 "of input, no ASan / UBSan / LeakSanitizer report, no hang; distinct = hash of input; non-trivial = non-empty input" % ("60 sampled per stream" if q else "all"))
     chk.require("runs_hostile", 500 * min(1.0, scale))
     chk.require("runs_prefix", 200 * min(1.0, scale))
